@@ -31,7 +31,9 @@ class Peripherals(ModelFeature):
 
     def __eq__(self, other):
         if isinstance(other, Peripherals):
-            return set(self.counts) == set(other.counts) and set(self.modes) == set(other.modes)
+            return set(self.counts) == set(other.counts) and set(self.eval.modes) == set(
+                other.eval.modes
+            )
         else:
             return False
 
